@@ -8,6 +8,8 @@ accepted by the strict reader and emit(parse(c1)) == c1 byte for byte.
 """
 from __future__ import annotations
 
+import json
+
 import asyncio
 import os
 import re
@@ -134,4 +136,18 @@ def replay(ctx, rp):
     return c01_model.replay(ctx, rp)
 
 
-TRIGGERS = {}
+def trig_cr_in_value(case, v):
+    return isinstance(case, dict) and "\r" in json.dumps(case.get("doc"), ensure_ascii=False).encode().decode("unicode_escape", "ignore")
+
+
+def trig_reserved_word_as_key(case, v):
+    """the first canonical text has a line whose KEY is a word the lexer reads as a literal when it stands alone"""
+    import re as _re
+    m = _re.search(r"c1='((?:[^'\\]|\\.)*)'", str(v.get("observed", "")))
+    if not m:
+        return False
+    c1 = m.group(1).encode().decode("unicode_escape", "ignore")
+    return bool(_re.search(r"(^|\n)\s*(true|false|null)::", c1))
+
+
+TRIGGERS = {"cr_in_value": trig_cr_in_value, "reserved_word_as_key": trig_reserved_word_as_key}
